@@ -244,6 +244,9 @@ pub fn flush_has_work(connections: &[SrtlaConnection], now: u64) -> (r: bool)
                 }
             }''', 'after'),
                    ('if let Some(sel_idx) = sel_idx {', '''proof {
+                assert(sched_choice is Some ==> sel_idx is Some);  // @ob C01+C03.route.handle_srt_packet.a_packet_the_scheduler_placed_is_never_dropped_by_the_override
+            }''', 'before', 'last'),
+                   ('if let Some(sel_idx) = sel_idx {', '''proof {
                     assert(sel_idx < connections.len());
                     assert(connections[sel_idx as int].eligible(packet_time_ms));  // @ob C04.route.handle_srt_packet.every_routed_copy_goes_to_an_eligible_uplink
                     assert(config_snap.mode is Classic ==> Some(sel_idx) == sched_choice);  // @ob C10.route.handle_srt_packet.classic_mode_routes_every_packet_kind_by_the_reference_choice
